@@ -173,6 +173,7 @@ class Firmware:
         if beh.get("error"):
             self._reply(beh["error"], gate=gate)
             return
+        after = list(beh.get("after", ()))
         rep = beh.get("report")
         if rep is None:
             if line.startswith("M114"):
@@ -186,6 +187,8 @@ class Firmware:
             self._reply(rep, gate=gate)
         else:
             self._reply("ok", gate=gate)
+        for line in after:          # unsolicited lines some time after the acknowledgement
+            self._reply(line, polls=60, gate=gate)
 
     def release(self, gate):
         with self.lock:
